@@ -213,7 +213,13 @@ class Sub:
         wall_cap=None,
         stateful=False,
         min_per_shard=None,
+        seeds=None,
+        max_len=4096,
     ):
+        # kind == 'fuzz': check receives {"data": bytes}; seeds(tier) -> list of valid inputs.  Quick
+        # tier: Hypothesis mutations of the seeds; thorough tier: coverage-guided atheris campaign
+        self.seeds = seeds
+        self.max_len = max_len
         # expensive sub-checks (>= 0.1 s per case) should set min_per_shard low (e.g. 4) so that a
         # small budget still spreads over all 16 worker processes
         self.min_per_shard = min_per_shard
